@@ -1390,6 +1390,29 @@ pub fn worker(w: &mut WorkerCtx) {
             w.vio(&sig, || detail, || J::obj([("world", J::s("stdfs")), ("what", J::s("mode-sweep"))]));
         }
     }
+    if w.shard == 2 % w.nshards {
+        // the process inside a directory that no longer exists: what fails on the backend value fails the same
+        // way through the wrappers (an error is a result like any other)
+        let gone = format!("{}/gone", sb.root);
+        if std::fs::create_dir_all(&gone).is_ok() && std::env::set_current_dir(&gone).is_ok() && std::fs::remove_dir(&gone).is_ok() {
+            for op in [Op::Cwd, Op::Abs(s("x")), Op::Abs(s(".")), Op::Exists(s("x")), Op::IsDir(s(".")), Op::SetCwd(s(".")), Op::Paths(s(".")), Op::Mkfile(s("x"))] {
+                let forms: Vec<String> = (0..4).map(|f| run_form(f, &op).transcript()).collect();
+                w.count("removed_cwd_comparisons", 3);
+                for (form, reference) in [(1usize, 0usize), (2, 1), (3, 1)] {
+                    if forms[form] != forms[reference] {
+                        let (a, b, r) = (forms[form].clone(), forms[reference].clone(), op.render());
+                        w.vio(
+                            &format!("{} {} · result differs from {} (working directory removed)", FORMS[form], op.name(), FORMS[reference]),
+                            move || format!("with the process's working directory removed: {} via {} -> {} ; via {} -> {}", r, FORMS[reference], b, FORMS[form], a),
+                            || J::obj([("world", J::s("stdfs")), ("what", J::s("removed-cwd"))]),
+                        );
+                    }
+                }
+            }
+        }
+        let _ = std::env::set_current_dir(&sb.base);
+        sb.reset();
+    }
     let trees = stdfs_trees(max_entries);
     let mut st = DStats::default();
     let mut ntrees = 0u64;
